@@ -67,5 +67,20 @@ class Index:
         except Exception as e:  # noqa: BLE001
             return None, f"{type(e).__name__}: {e}"
 
+    def private_copy(self) -> "Index":
+        """A per-process copy of the directory (files + built index) for checks
+        that write into the notes directory; shares the universe."""
+        pid = os.getpid()
+        cp = getattr(self, "_copies", {}).get(pid)
+        if cp is None:
+            cp = Index.__new__(Index)
+            cp.day = self.day
+            cp.zdir = Z.copy_zdir(self.zdir, with_index=True, tag="ixc")
+            cp.raw = self.raw
+            cp.universe = self.universe
+            cp._sess = {}
+            self._copies = {pid: cp}
+        return cp
+
     def drop(self) -> None:
         Z.drop(self.zdir)
